@@ -93,6 +93,23 @@ def run(ctx):
         ctx.check(not badk, "R15.1", "%s|records-looked-up-key" % f.name,
                   "the access is recorded for the key that was looked up", f.where(), "; ".join(badk[:2]))
     ctx.floor("R15.1", "read APIs that record accesses directly", n_hit_src, 2)
+    # ---- R15.11 a read answering several keys obtains each value through the single-key read (whose lookup/record pairing
+    # R15.1 decides), one call per requested key: looking the store up directly and recording "afterwards, for what was
+    # found" loses the pairing (duplicates collapse, a record per distinct key instead of per hit)
+    from storemodel import StoreModel
+    S_ = StoreModel(ctx)
+    lookup_fns = {g.name for g, bb, t in S_.lookup_sites if (g.rec.get("ret") or "").startswith("std::option::Option<") and g.kind != "Closure"}
+    for f in reads:
+        if "HashMap<" not in (f.rec.get("ret") or "") or f.rec.get("impl_trait"):
+            continue
+        direct = []
+        for g in [f] + F.closures_of(f):
+            for b, t in g.calls():
+                if t.get("rpath") in lookup_fns or t.get("rpath") in rec_fns:
+                    direct.append("%s calls %s" % (g.name.split("::")[-1], t["rpath"].split("::")[-1]))
+        via_single = any(t.get("rpath") in read_names for g in [f] + F.closures_of(f) for b, t in g.calls())
+        ctx.check(not direct and via_single, "R15.11", "%s|multi-read-goes-through-the-single-read" % f.name,
+                  "a read of several keys calls the single-key read once per requested key and neither looks the store up nor records accesses itself", f.where(), "; ".join(sorted(set(direct))[:3]))
 
     # ---- R15.2 who may add to the pool ---------------------------------------------------------------
     pool_adds = [f for n, f in F.fns.items() if any(lc == ("write", "PB") for lc in [__import__("core").lock_call(t) for b, t in f.calls()] if lc)]
@@ -366,6 +383,8 @@ def run(ctx):
                   "the buffer handed to the sketch is walked completely: one element loop over the whole vector, each element recorded once", g.where())
     ctx.floor("R15.9", "functions applying a buffer to the sketch", n_apply, 1)
 
+    from core import no_try_locks
+    no_try_locks(ctx, "R15.10", {"PB", "AF"}, "an access that is not buffered, or a buffer that is not applied, is lost unaccounted")
     # ---- R15.6 reads never wait ------------------------------------------------------------------------
     for f in reads:
         ctx.touch(f)
